@@ -1,6 +1,6 @@
 #!/bin/sh
 # tools/run_all.sh [tier] [seed] : run every registered check sequentially; summary at the end
-cd "$(dirname "$0")/.."
+cd "$(dirname "$0")/.."; export VERIF_REPO=${VERIF_REPO:-/repo}
 tier=${1:-quick}; seed=${2:-0}
 mkdir -p /var/tmp/runall
 for p in $(python3 -c "import json; print(' '.join(c['property_id'] for c in json.load(open('MANIFEST.json'))['checks']))"); do
